@@ -17,6 +17,7 @@
 #include "valio.h"
 #include <signal.h>
 #include <setjmp.h>
+#include <limits.h>
 #include <interval.h>
 #include <rational_interval.h>
 #include <dyadic_interval.h>
@@ -363,6 +364,123 @@ static void run_apoly(void) {
   lp_interval_destruct(&r); lp_interval_assignment_delete(m); lp_polynomial_delete(p);
 }
 
+
+/* ---------------------------------------------------------------- the rest of dyadic_interval.h / rational_interval.h / interval.h */
+static void put_opt_di(lp_dyadic_interval_t* I) { put_di(I); lp_dyadic_interval_destruct(I); }
+static int run_more(void) {
+  if (is_op("dsplit")) {
+    lp_dyadic_interval_t I, L, R; get_di(&I); int lo = atoi(tk()), ro = atoi(tk());
+    lp_dyadic_interval_construct_from_split(&L, &R, &I, lo, ro);
+    put_opt_di(&L); printf(" ; "); put_opt_di(&R); lp_dyadic_interval_destruct(&I); return 1;
+  }
+  if (is_op("dinter") || is_op("ddisj") || is_op("dequals")) {
+    lp_dyadic_interval_t I1, I2; get_di(&I1); get_di(&I2);
+    if (is_op("dinter")) {
+      lp_dyadic_interval_t J; lp_dyadic_interval_construct_intersection(&J, &I1, &I2); put_opt_di(&J);
+      printf(" ; "); lp_dyadic_interval_construct_intersection(&J, &I2, &I1); put_opt_di(&J);
+    } else if (is_op("ddisj")) printf("%d %d", lp_dyadic_interval_disjoint(&I1, &I2) ? 1 : 0, lp_dyadic_interval_disjoint(&I2, &I1) ? 1 : 0);
+    else printf("%d %d", lp_dyadic_interval_equals(&I1, &I2) ? 1 : 0, lp_dyadic_interval_equals(&I2, &I1) ? 1 : 0);
+    lp_dyadic_interval_destruct(&I1); lp_dyadic_interval_destruct(&I2); return 1;
+  }
+  if (is_op("dcmp")) {
+    lp_dyadic_interval_t I; get_di(&I); lp_value_t v; get_val(&v);
+    int c = 0, k = -1;
+    if (v.type == LP_VALUE_INTEGER) c = lp_dyadic_interval_cmp_integer(&I, &v.value.z);
+    else if (v.type == LP_VALUE_DYADIC_RATIONAL) { c = lp_dyadic_interval_cmp_dyadic_rational(&I, &v.value.dy_q); k = lp_dyadic_interval_contains_dyadic_rational(&I, &v.value.dy_q); }
+    else c = lp_dyadic_interval_cmp_rational(&I, &v.value.q);
+    printf("%d", sgn_of(c)); if (k >= 0) printf(" %d", k);
+    lp_value_destruct(&v); lp_dyadic_interval_destruct(&I); return 1;
+  }
+  if (is_op("dcollapse") || is_op("dseta") || is_op("dsetb")) {
+    lp_dyadic_interval_t I; get_di(&I); lp_dyadic_rational_t q; get_dy(&q);
+    if (is_op("dcollapse")) lp_dyadic_interval_collapse_to(&I, &q);
+    else { int o = atoi(tk()); if (is_op("dseta")) lp_dyadic_interval_set_a(&I, &q, o); else lp_dyadic_interval_set_b(&I, &q, o); }
+    put_di(&I); lp_dyadic_rational_destruct(&q); lp_dyadic_interval_destruct(&I); return 1;
+  }
+  if (is_op("dscale")) { lp_dyadic_interval_t I; get_di(&I); int n = atoi(tk()); lp_dyadic_interval_scale(&I, n); put_opt_di(&I); return 1; }
+  if (is_op("dsize")) {
+    lp_dyadic_interval_t I; get_di(&I); int sz = lp_dyadic_interval_size(&I);
+    if (sz == INT_MIN) printf("INT_MIN"); else printf("%d", sz);
+    printf(" %d", lp_dyadic_interval_is_point(&I));
+    if (lp_dyadic_interval_is_point(&I)) { putchar(' '); put_dy(lp_dyadic_interval_get_point(&I)); }
+    lp_dyadic_interval_destruct(&I); return 1;
+  }
+  if (is_op("dfromz") || is_op("rfromz")) {
+    lp_integer_t a, b; mpz_init_set_str(&a, tk(), 10); int ao = atoi(tk()); mpz_init_set_str(&b, tk(), 10); int bo = atoi(tk());
+    if (is_op("dfromz")) { lp_dyadic_interval_t I; lp_dyadic_interval_construct_from_integer(&I, &a, ao, &b, bo); put_opt_di(&I); }
+    else { lp_rational_interval_t I; lp_rational_interval_construct_from_integer(&I, &a, ao, &b, bo); put_ri(&I); lp_rational_interval_destruct(&I); }
+    mpz_clear(&a); mpz_clear(&b); return 1;
+  }
+  if (is_op("dassign")) {
+    /* assign into I (both directions), self-assignment, then swap */
+    lp_dyadic_interval_t I, F; get_di(&I); get_di(&F);
+    lp_dyadic_interval_t X, Y; lp_dyadic_interval_construct_copy(&X, &I); lp_dyadic_interval_construct_copy(&Y, &F);
+    lp_dyadic_interval_assign(&X, &F); put_di(&X); printf(" ; ");
+    lp_dyadic_interval_assign(&Y, &I); put_di(&Y); printf(" ; ");
+    lp_dyadic_interval_assign(&X, &X); put_di(&X); printf(" ; ");
+    lp_dyadic_interval_swap(&I, &F); put_di(&I); printf(" ; "); put_di(&F);
+    lp_dyadic_interval_destruct(&X); lp_dyadic_interval_destruct(&Y); lp_dyadic_interval_destruct(&I); lp_dyadic_interval_destruct(&F); return 1;
+  }
+  if (is_op("rassign")) {
+    lp_rational_interval_t I, F; get_ri(&I); get_ri(&F);
+    lp_rational_interval_t X, Y; lp_rational_interval_construct_copy(&X, &I); lp_rational_interval_construct_copy(&Y, &F);
+    lp_rational_interval_assign(&X, &F); put_ri(&X); printf(" ; ");
+    lp_rational_interval_assign(&Y, &I); put_ri(&Y); printf(" ; ");
+    lp_rational_interval_assign(&X, &X); put_ri(&X); printf(" ; ");
+    lp_rational_interval_swap(&I, &F); put_ri(&I); printf(" ; "); put_ri(&F);
+    printf(" ; %d", lp_rational_interval_is_point(&I));
+    if (lp_rational_interval_is_point(&I)) { putchar(' '); put_q(lp_rational_interval_get_point(&I)); }
+    lp_rational_interval_destruct(&X); lp_rational_interval_destruct(&Y); lp_rational_interval_destruct(&I); lp_rational_interval_destruct(&F); return 1;
+  }
+  if (is_op("rfromdy")) {
+    lp_dyadic_rational_t a, b; get_dy(&a); int ao = atoi(tk()); get_dy(&b); int bo = atoi(tk());
+    lp_rational_interval_t I; lp_rational_interval_construct_from_dyadic(&I, &a, ao, &b, bo); put_ri(&I);
+    lp_rational_interval_destruct(&I); lp_dyadic_rational_destruct(&a); lp_dyadic_rational_destruct(&b); return 1;
+  }
+  if (is_op("rfromdi")) {
+    lp_dyadic_interval_t D; get_di(&D); lp_rational_interval_t I; lp_rational_interval_construct_from_dyadic_interval(&I, &D); put_ri(&I);
+    lp_rational_interval_destruct(&I); lp_dyadic_interval_destruct(&D); return 1;
+  }
+  if (is_op("rcval")) {
+    /* contains_value for every kind, and the kind-specific entry point */
+    lp_rational_interval_t I; get_ri(&I); lp_value_t v; get_val(&v);
+    printf("%d", lp_rational_interval_contains_value(&I, &v) ? 1 : 0);
+    if (v.type == LP_VALUE_INTEGER) printf(" %d", lp_rational_interval_contains_integer(&I, &v.value.z) ? 1 : 0);
+    else if (v.type == LP_VALUE_DYADIC_RATIONAL) printf(" %d", lp_rational_interval_contains_dyadic_rational(&I, &v.value.dy_q) ? 1 : 0);
+    else if (v.type == LP_VALUE_RATIONAL) printf(" %d", lp_rational_interval_contains_rational(&I, &v.value.q) ? 1 : 0);
+    lp_value_destruct(&v); lp_rational_interval_destruct(&I); return 1;
+  }
+  if (is_op("rcalg")) {
+    /* rcalg <I> <valio token>: algebraic (or any) value against a rational interval */
+    lp_rational_interval_t I; get_ri(&I); lp_value_t v;
+    if (!vio_parse(&v, tk())) { printf("BAD-TOKEN"); lp_rational_interval_destruct(&I); return 1; }
+    printf("%d", lp_rational_interval_contains_value(&I, &v) ? 1 : 0);
+    if (v.type == LP_VALUE_ALGEBRAIC) printf(" %d", lp_rational_interval_contains_algebraic_number(&I, &v.value.a) ? 1 : 0);
+    lp_value_destruct(&v); lp_rational_interval_destruct(&I); return 1;
+  }
+  if (is_op("vcollapse") || is_op("vseta") || is_op("vsetb")) {
+    lp_interval_t I; get_vi(&I); lp_value_t v; get_val(&v);
+    if (is_op("vcollapse")) lp_interval_collapse_to(&I, &v);
+    else { int o = atoi(tk()); if (is_op("vseta")) lp_interval_set_a(&I, &v, o); else lp_interval_set_b(&I, &v, o); }
+    put_vi(&I); lp_value_destruct(&v); lp_interval_destruct(&I); return 1;
+  }
+  if (is_op("vinfo")) {
+    /* is_full, is_point (+ get_point), size_approx, and the constant full interval */
+    lp_interval_t I; get_vi(&I);
+    printf("%d %d", lp_interval_is_point(&I) ? 0 : (lp_interval_is_full(&I) ? 1 : 0), lp_interval_is_point(&I));
+    if (lp_interval_is_point(&I)) { putchar(' '); put_val(lp_interval_get_point(&I)); }
+    int sz = lp_interval_size_approx(&I);
+    if (sz == INT_MIN) printf(" INT_MIN"); else if (sz == INT_MAX) printf(" INT_MAX"); else printf(" %d", sz);
+    printf(" %d ", lp_interval_is_full(lp_interval_full()) ? 1 : 0); put_vi(lp_interval_full());
+    lp_interval_destruct(&I); return 1;
+  }
+  if (is_op("vswap")) {
+    lp_interval_t I1, I2; get_vi(&I1); get_vi(&I2); lp_interval_swap(&I1, &I2); put_vi(&I1); printf(" ; "); put_vi(&I2);
+    lp_interval_destruct(&I1); lp_interval_destruct(&I2); return 1;
+  }
+  return 0;
+}
+
 /* GMP reports a division by zero with SIGFPE: caught for the two *_construct_from_int cases only, so that the
  * defect is one deterministic output line instead of the death of the driver */
 static sigjmp_buf fpe_env;
@@ -429,7 +547,13 @@ int main(void) {
       } else printf(" ABORT (assertion failed inside the library)");
       signal(SIGABRT, old);
     }
-    else printf("UNKNOWN-OP");
+    else {
+      /* an assertion failing inside the library becomes one deterministic output line */
+      void (*old)(int) = signal(SIGABRT, on_fpe);
+      if (sigsetjmp(fpe_env, 1) == 0) { if (!run_more()) printf("UNKNOWN-OP"); }
+      else printf(" ABORT (assertion failed inside the library)");
+      signal(SIGABRT, old);
+    }
     end_case();
   }
   lp_polynomial_context_detach(ctx); lp_variable_order_detach(var_order); lp_variable_db_detach(var_db);
